@@ -138,7 +138,7 @@ def _attrs_read(repo: Repo, cls: Def, fn: Def, seen=None) -> set[str]:
     return out | more
 
 
-@rule("SPEC-EQ-1", props=["C18"], floor=8)
+@rule("SPEC-EQ-1", props=["C18", "C19", "C20"], floor=8, default=["C18"])
 def spec_eq(ctx: Ctx) -> None:
     """every constructor parameter of Spec is stored in a field that __eq__ reads (directly or
     through a property chain); executors compare by name and options"""
@@ -171,7 +171,16 @@ def spec_eq(ctx: Ctx) -> None:
         for t, pol in conj:
             if not (isinstance(t, ast.Compare) and isinstance(t.ops[0], ast.Eq) and isinstance(t.left, ast.Attribute) and isinstance(t.comparators[0], ast.Attribute) and t.left.attr == t.comparators[0].attr):
                 ok = False
-    ctx.ob(eq, rets[0] if rets else eq.node, ok, "Spec.__eq__ is a conjunction of field-by-field equalities", sel="eq:shape")
+    whole = [c for r in rets for c in ast.walk(r) if (isinstance(c, ast.Call) and isinstance(c.func, ast.Name) and c.func.id == "vars") or (isinstance(c, ast.Attribute) and c.attr == "__dict__")]
+    ctx.ob(
+        eq,
+        rets[0] if rets else eq.node,
+        ok and not whole,
+        "Spec.__eq__ is a conjunction of field-by-field equalities"
+        + (" — it compares whole instance dictionaries: state cached lazily on one side (cached_property) makes two specs with equal settings unequal, e.g. a deserialized copy and its original" if whole else ""),
+        sel="eq:shape",
+        props=["C18", "C19", "C20"],
+    )
     deq = repo.get(f"{A.DAG_EXECUTOR}.__eq__")
     rd = {n.attr for n in ast.walk(deq.node) if isinstance(n, ast.Attribute) and isinstance(n.value, ast.Name) and n.value.id == "self"}
     ctx.ob(deq, None, {"name", "kwargs"} <= rd, "DagExecutor.__eq__ compares name and options", sel="eq:executor")
@@ -238,6 +247,27 @@ def bytes_rule(ctx: Ctx) -> None:
     ones = [n for n in f.own_nodes() if isinstance(n, ast.Assign) and isinstance(n.targets[0], ast.Name) and n.targets[0].id == fvar and isinstance(n.value, ast.Constant)]
     ok = bool(ones) and all(n.value.value == 1 for n in ones)
     ctx.ob(f, ones[0] if ones else f.node, ok, "numeric strings and the bare `B` suffix are taken as bytes (factor 1)", sel="bytes:unit-one")
+    # the value whose integrality is tested is the exact product: nothing rounds it first
+    fl_, cfg_ = flow_of(repo, f), cfg_of(f)
+    tests = [c for c in f.own_nodes() if isinstance(c, ast.Call) and isinstance(c.func, ast.Attribute) and c.func.attr == "is_integer" and isinstance(c.func.value, ast.Name) and cfg_.has(c)]
+    for t_ in tests:
+        rounders = []
+        for d_ in fl_.rdefs(t_.func.value.id, cfg_.node_of(t_)):
+            if d_.value is None:
+                continue
+            for c in ast.walk(d_.value):
+                if isinstance(c, ast.Call) and ((isinstance(c.func, ast.Name) and c.func.id in ("round", "int")) or (attr_chain(c.func) or "").split(".")[-1] in ("floor", "ceil", "trunc", "rint", "round", "around")):
+                    rounders.append(c)
+                if isinstance(c, ast.BinOp) and isinstance(c.op, ast.FloorDiv):
+                    rounders.append(c)
+        ctx.ob(
+            f,
+            t_,
+            not rounders,
+            "the integrality test sees the exact value (no rounding before it)"
+            + ("" if not rounders else f" — `{unparse(rounders[0], 40)}` rounds the value that reaches `.is_integer()`: a fractional number of bytes is silently changed instead of refused"),
+            sel="bytes:exact-before-test",
+        )
     # every path to a normal return passes `size >= 0`, non-integral floats raise, unknown strings raise
     rets = [r for r in cfg.returns() if r.stmt.value is not None]
     ctx.need(rets, "convert_to_bytes has no value return")
